@@ -195,8 +195,79 @@ func (w *World) sweepsFor(prop string, cfg *RunCfg) []workItem {
 		for _, fn := range cfns {
 			items = append(items, workItem{fn: fn, why: "method of error type", opts: VerifyOpts{Props: map[string]bool{"C05": true}, Safety: true, ExtraRequires: ifaceParamsNonNil}})
 		}
+	case "C10":
+		// nil discipline sweep: every exported function of the module that takes one error and
+		// returns an error returns nil for a nil argument (functions with an explicit C10 contract
+		// are checked against that contract instead: CombineErrors, WithSecondaryError, Join, ...)
+		for _, fn := range w.exportedErrorFuncs() {
+			if c := w.Contracts[fn]; c != nil && contractMentions(c, "C10") {
+				continue
+			}
+			fn := fn
+			items = append(items, workItem{fn: fn, why: "nil-discipline sweep", opts: VerifyOpts{
+				Props: map[string]bool{"C10": true}, Safety: false,
+				ExtraRequires: ifaceParamsNonNil,
+				ExtraPosts: func(ex *Ex, fr *Frame, st *State, results []SV) []NamedGoal {
+					var ep *ssa.Parameter
+					for _, p := range fn.Params {
+						if p.Type().String() == "error" {
+							ep = p
+							break
+						}
+					}
+					if ep == nil || len(results) == 0 {
+						return nil
+					}
+					in := fr.Entry.regs[ep].T
+					return []NamedGoal{{Name: "nilin.nilout", Text: "a nil " + ep.Name() + " yields a nil result", Goal: Implies(IfaceIsNil(in), IfaceIsNil(results[0].T)), Props: []string{"C10"}}}
+				},
+			}})
+		}
 	}
 	return items
+}
+
+// exportedErrorFuncs: exported package-level functions of the module's non-test packages with
+// exactly one parameter of type error and whose first result is an error.
+func (w *World) exportedErrorFuncs() []*ssa.Function {
+	var out []*ssa.Function
+	var paths []string
+	for p := range w.Pkgs {
+		paths = append(paths, p)
+	}
+	sort.Strings(paths)
+	for _, p := range paths {
+		sp := w.Pkgs[p]
+		if !w.InModule(sp.Pkg) || strings.Contains(p, "testutils") || strings.Contains(p, "fmttests") || strings.Contains(p, "/internal") {
+			continue
+		}
+		var names []string
+		for n := range sp.Members {
+			names = append(names, n)
+		}
+		sort.Strings(names)
+		for _, n := range names {
+			fn, ok := sp.Members[n].(*ssa.Function)
+			if !ok || fn.Object() == nil || !fn.Object().Exported() || len(fn.Blocks) == 0 {
+				continue
+			}
+			sig := fn.Signature
+			if sig.Results().Len() < 1 || sig.Results().At(0).Type().String() != "error" {
+				continue
+			}
+			nerr := 0
+			for i := 0; i < sig.Params().Len(); i++ {
+				if sig.Params().At(i).Type().String() == "error" {
+					nerr++
+				}
+			}
+			if nerr != 1 {
+				continue
+			}
+			out = append(out, fn)
+		}
+	}
+	return out
 }
 
 func propAssumptions(prop string) []string {
